@@ -40,3 +40,22 @@ impl HttpError {
     pub fn description(&self) -> String { unimplemented!() }
 }
 pub assume_specification [std::string::String::into_bytes] (_0: std::string::String) -> std::vec::Vec<u8>;
+
+// Cookie and its Set-Cookie text (src/cookie.rs; proved in unit cookie, C15): here only that the conversion is a function of
+// the cookie
+#[verifier::external_body]
+pub struct Cookie { _p: () }
+pub uninterp spec fn set_cookie_value(c: Cookie) -> AsciiString;
+impl vstd::std_specs::convert::FromSpecImpl<Cookie> for AsciiString {
+    open spec fn obeys_from_spec() -> bool { true }
+    open spec fn from_spec(c: Cookie) -> AsciiString { set_cookie_value(c) }
+}
+impl From<Cookie> for AsciiString {
+    #[verifier::external_body]
+    fn from(c: Cookie) -> (r: AsciiString) { unimplemented!() }
+}
+// AsRef<str> for str is the identity (assumed, from std)
+#[verifier::external_body]
+pub proof fn axiom_asref_str(s: &str)
+    ensures asref_spec::<&str, str>(&s)@ == s@
+{}
